@@ -267,6 +267,9 @@ package protocol
 // only CR and LF bytes are the two terminator bytes it writes itself.
 //@ func appendHeaderLine(dst, key, value) r
 //@   props C05, C03, C04
+//@   witness dst = "", key = "X-Token", value = "abc\n"
+//@   witness dst = "", key = "X-Token", value = "a\nX-Injected: 1"
+//@   witness dst = "", key = "X-Token", value = "abc\r"
 //@   alias dst
 //@   modifies spare(dst)
 //@   allocates
